@@ -60,7 +60,7 @@ MStore(S0, i, d, rv, gap) ==
         hs == { h \in Heights(c.par.rev) : h \notin DOMAIN c.cons /\ FreshTrusted(c, h, t) # {}
                                            /\ (gap => HLT(h, c.latest)) /\ (~gap => HLT(c.latest, h)) }
     IN IF hs = {} THEN <<>> ELSE
-       LET h  == Sel(hs, rv[2])
+       LET h  == IF ~gap /\ rv[2] % 5 # 0 THEN HMin(hs) ELSE Sel(hs, rv[2])
            th == Sel(FreshTrusted(c, h, t), rv[3])
            ft == FitTimes(c, h, th, t)
        IN IF ft = {} THEN <<>>
@@ -218,28 +218,40 @@ Plan(S0, rv) ==
     LET t    == S0.now
         live == Live(S0, t) \cap Subjects(S0)
         i    == IF live = {} THEN 1 ELSE Sel(live, rv[1])
-        d    == IF rv[8] % 3 = 0 THEN 1 ELSE 0
+        d    == IF rv[8] % 4 = 0 THEN 1 ELSE 0
         w    == rv[1] % 100
         subj == Subjects(S0)
-    IN IF live = {} /\ w < 60 THEN
-            \* nothing alive: try to recover somebody with an Active substitute, else noise
+    IN IF live = {} THEN
+            \* nothing alive: recover somebody with an Active substitute, create a fresh client, or noise
             LET dead == { x \in subj : Status(S0.cl[x], t) # "Active" } IN
-            IF dead # {} /\ Live(S0, t) # {} /\ w < 30 THEN << RecAct(Sel(dead, rv[2]), Sel(Live(S0, t), rv[3]), 0) >> ELSE Noise(S0, rv)
-       ELSE IF live = {} THEN Noise(S0, rv)
-       ELSE CASE w < 22 -> MStore(S0, i, d, rv, FALSE)
-              [] w < 32 -> MStore(S0, i, d, rv, TRUE)
-              [] w < 40 -> MStored(S0, i, d, rv, FALSE)
-              [] w < 44 -> MStored(S0, i, d, rv, TRUE)
-              [] w < 48 -> MBadTime(S0, i, d, rv)
-              [] w < 58 -> MMutant(S0, i, d, rv)
-              [] w < 62 -> MExpiryEdge(S0, i, rv)
-              [] w < 66 -> MDriftEdge(S0, i, d, rv)
-              [] w < 72 -> MPruneEdge(S0, i, rv)
-              [] w < 75 -> MTrustedExpired(S0, i, rv)
-              [] w < 81 -> MMisb(S0, i, d, rv)
-              [] w < 87 -> MRecover(S0, Sel(subj, rv[1] \div 100), Sel(subj, rv[5]), rv)
-              [] w < 92 -> MUpgrade(S0, i, d, rv)
+            IF dead # {} /\ Live(S0, t) # {} /\ w < 30 THEN << RecAct(Sel(dead, rv[2]), Sel(Live(S0, t), rv[3]), 0) >>
+            ELSE IF w < 80 THEN << CreateAct(d, StdPar, <<0, 1 + (rv[5] % 2)>>, Clamp(S0.now, 1, S0.now + 1), "r1", "V") >>
+            ELSE Noise(S0, rv)
+       ELSE CASE w < 30 -> MStore(S0, i, d, rv, FALSE)
+              [] w < 40 -> MStore(S0, i, d, rv, TRUE)
+              [] w < 48 -> MStored(S0, i, d, rv, FALSE)
+              [] w < 51 -> MStored(S0, i, d, rv, TRUE)
+              [] w < 54 -> MBadTime(S0, i, d, rv)
+              [] w < 64 -> MMutant(S0, i, d, rv)
+              [] w < 67 -> MExpiryEdge(S0, i, rv)
+              [] w < 71 -> MDriftEdge(S0, i, d, rv)
+              [] w < 76 -> MPruneEdge(S0, i, rv)
+              [] w < 79 -> MTrustedExpired(S0, i, rv)
+              [] w < 84 -> MMisb(S0, i, d, rv)
+              [] w < 90 -> MRecover(S0, Sel(subj, rv[1] \div 100), Sel(subj, rv[5]), rv)
+              [] w < 95 -> MUpgrade(S0, i, d, rv)
               [] OTHER  -> Noise(S0, rv)
+
+\* when the drawn macro does not apply: store something, else let time pass
+Fallback(S0, rv) ==
+    LET live == Live(S0, S0.now) \cap Subjects(S0) IN
+    IF live = {} THEN << TickAct(1) >>
+    ELSE LET i  == Sel(live, rv[7])
+             s1 == MStore(S0, i, 0, rv, FALSE)
+             s2 == MStore(S0, i, 0, rv, TRUE)
+         IN IF s1 # <<>> THEN s1 ELSE IF s2 # <<>> THEN s2 ELSE << TickAct(1) >>
+
+Choose(S0, rv) == LET p == Plan(S0, rv) IN IF p # <<>> THEN p ELSE Fallback(S0, rv)
 
 Bounded(S0) == S0.now <= MaxT
 
@@ -248,7 +260,7 @@ Next ==
     /\ Bounded(S)
     /\ \E rv \in { [k \in 1..8 |-> RandomElement(0..9999)] } :
        \E plan \in { IF todo # <<>> THEN todo
-                     ELSE LET p == Plan(S, rv) IN IF p = <<>> THEN << TickAct(1 + (rv[8] % 3)) >> ELSE p } :
+                     ELSE Choose(S, rv) } :
        LET a == Head(plan)
            r == Step(S, a)
        IN /\ S' = r.S
